@@ -100,6 +100,11 @@ def run(ctx):
         shutil.rmtree(moved, ignore_errors=True)
         shutil.copytree(root, moved)
         variants.append(("relocated", os.path.join(moved, "src/main.idl"), os.path.join(moved, "inc"), moved))
+        # the same tree under directories whose names contain dots and a hidden directory
+        dotted = os.path.realpath(os.path.join(work, "cases", str(k), "moved.v2", ".cache", "proj.1.0"))
+        shutil.rmtree(dotted, ignore_errors=True)
+        shutil.copytree(root, dotted)
+        variants.append(("relocated-dotted", os.path.join(dotted, "src/main.idl"), os.path.join(dotted, "inc"), dotted))
         ref, diffs, nruns = None, [], 0
         for name, m, i, cwd in variants:
             r = compile_all(ctx["idlc"], m, i, cwd, os.path.join(outs, name))
@@ -133,7 +138,7 @@ def run(ctx):
         "evaluations": total_runs, "distinct_nontrivial": distinct,
         "rule": "file sets with 2-3 files (included files under inc/ reached through -I), 3-5 structs and 2-4 interfaces per file; "
                 "%d variants per case (reference, reruns with fresh hash seeds, relative spellings, ./, redundant components, other cwd, "
-                "symlinked tree, symlinked main file in another directory with and without a decoy include, relocated copy) x 6 backend/role outputs; non-trivial = at least 4 of the 6 outputs accepted" % nvar,
+                "symlinked tree, symlinked main file in another directory with and without a decoy include, relocated copy, relocated copy under dotted / hidden directory names) x 6 backend/role outputs; non-trivial = at least 4 of the 6 outputs accepted" % nvar,
         "samples": [{"idl": {f["path"]: gen.render_file(f) for f in cases[0]["files"]}}] if cases else [],
         "cases": len(cases), "variants_per_case": nvar,
     }
